@@ -101,10 +101,7 @@ func refBuiltin(name string, recv Val, args []Val) refOut {
 			ell := "..."
 			if b := arg(1); b != nil {
 				if b.K != VStr {
-					if a.I >= int64(len(runes)) {
-						return rUnspec() // the second argument is not looked at when nothing is cut
-					}
-					return rErr()
+					return rErr() // "an error for wrong argument kinds", whether or not something is cut
 				}
 				ell = b.S
 			}
@@ -322,11 +319,11 @@ func refBuiltin(name string, recv Val, args []Val) refOut {
 func refDecimal(s string, args []Val) refOut {
 	if _, err := strconv.Atoi(s); err != nil {
 		if len(args) > 2 {
-			return rUnspec()
+			return rErr()
 		}
 		for i, a := range args {
 			if (i == 0 && a.K != VStr) || (i == 1 && a.K != VInt) {
-				return rUnspec() // a non-numeric string is returned as it is; whether arguments are still validated is not stated
+				return rErr() // "an error for wrong argument kinds", also when the receiver is not numeric
 			}
 		}
 		return rVal(vStr(s))
